@@ -86,3 +86,70 @@ Lemma names_plainb_ok fs : names_plainb fs = true -> names_plain fs.
 Proof.
   intros H p k Hin. unfold names_plainb in H. rewrite forallb_forall in H. exact (H (p, k) Hin).
 Qed.
+
+(* ---------- each path is yielded at most once ---------- *)
+Lemma NoDup_app_intro {A} (l1 l2 : list A) :
+  NoDup l1 -> NoDup l2 -> (forall x, In x l1 -> ~ In x l2) -> NoDup (l1 ++ l2).
+Proof.
+  induction l1 as [|a l1 IH]; intros H1 H2 Hd; [assumption|]. cbn. inversion H1; subst. constructor.
+  - intros Hin. apply in_app_or in Hin. destruct Hin as [Hin|Hin]; [contradiction|].
+    apply (Hd a (or_introl eq_refl) Hin).
+  - apply IH; [assumption|assumption|]. intros x Hx. apply Hd. right. assumption.
+Qed.
+
+Lemma NoDup_map_filter {A B} (g : A -> B) (P : A -> bool) (l : list A) :
+  NoDup (map g l) -> NoDup (map g (filter P l)).
+Proof.
+  induction l as [|a l IH]; intros H; [constructor|]. cbn in *. inversion H; subst.
+  destruct (P a); [|auto]. cbn. constructor; [|auto].
+  intros Hin. apply in_map_iff in Hin. destruct Hin as (x & E & Hx). apply filter_In in Hx.
+  apply H2. rewrite <- E. apply in_map. apply Hx.
+Qed.
+
+Lemma filter_res_NoDup f (l out : list path) : NoDup l -> filter_res f l = Ok out -> NoDup out.
+Proof.
+  revert out. induction l as [|x l IH]; intros out Hn; cbn.
+  - intros [= <-]. constructor.
+  - destruct (f x) as [b|e]; [|discriminate]. destruct (filter_res f l) as [o|e] eqn:Hr; [|discriminate].
+    intros [= <-]. inversion Hn; subst. specialize (IH o H2 eq_refl). destruct b; [|assumption].
+    constructor; [|assumption]. intros Hin. apply (filter_res_In _ _ _ Hr) in Hin. tauto.
+Qed.
+
+Lemma prefixes_comparable a b p : is_prefix a p = true -> is_prefix b p = true -> is_prefix a b = true \/ is_prefix b a = true.
+Proof.
+  revert b p. induction a as [|x a IH]; intros b p Ha Hb; [left; reflexivity|].
+  destruct b as [|y b]; [right; reflexivity|]. destruct p as [|z p]; [discriminate|].
+  cbn in Ha, Hb. apply andb_true_iff in Ha. apply andb_true_iff in Hb. destruct Ha as (Hx & Ha). destruct Hb as (Hy & Hb).
+  apply String.eqb_eq in Hx. apply String.eqb_eq in Hy. subst. cbn. rewrite String.eqb_refl. cbn.
+  apply (IH b p Ha Hb).
+Qed.
+
+Lemma rglob_prefix fs d p : In p (rglob fs d) -> is_prefix d p = true.
+Proof.
+  unfold rglob. intros H. apply in_map_iff in H. destruct H as ((q, k) & E & Hin). cbn in E. subst q.
+  apply filter_In in Hin. destruct Hin as (_ & Hb). cbn in Hb. unfold below in Hb.
+  apply andb_true_iff in Hb. destruct Hb as (Hb & _). apply andb_true_iff in Hb. apply Hb.
+Qed.
+
+Lemma disjoint_from_spec d l e : disjoint_from d l = true -> In e l -> is_prefix d e = false /\ is_prefix e d = false.
+Proof.
+  induction l as [|x l IH]; [intros _ []|]. cbn. intros H [<-|Hin].
+  - apply andb_true_iff in H. destruct H as (H & _). apply andb_true_iff in H. destruct H as (H1 & H2).
+    apply negb_true_iff in H1. apply negb_true_iff in H2. auto.
+  - apply andb_true_iff in H. apply IH; tauto.
+Qed.
+
+Theorem iter_nodup fs cb out :
+  NoDup (map fst fs) -> roots_ok fs (cb_roots cb) = true -> iter fs cb = Ok out -> NoDup out.
+Proof.
+  intros Hfs Hr Hit. unfold iter in Hit. apply (filter_res_NoDup _ _ _) in Hit; [assumption|].
+  clear Hit. induction (cb_roots cb) as [|d l IH]; [constructor|]. cbn [flat_map].
+  cbn [roots_ok] in Hr. apply andb_true_iff in Hr. destruct Hr as (Hr & Hl). apply andb_true_iff in Hr.
+  destruct Hr as (_ & Hd). apply NoDup_app_intro.
+  - unfold rglob. apply NoDup_map_filter. assumption.
+  - apply IH. assumption.
+  - intros p Hp Hq. apply in_flat_map in Hq. destruct Hq as (e & He & Hpe).
+    apply rglob_prefix in Hp. apply rglob_prefix in Hpe.
+    destruct (disjoint_from_spec d l e Hd He) as (N1 & N2).
+    destruct (prefixes_comparable d e p Hp Hpe); congruence.
+Qed.
